@@ -121,6 +121,11 @@ def handle : List String → String
   | ["py", "splitlines", s] => match decList? s with | some s => encLists (strSplitlines s) | none => "bad-arg"
   | ["py", "intdec", s] => match decList? s with | some s => encOptPair (pyIntDec s) | none => "bad-arg"
   | ["py", "inthex", s] => match decList? s with | some s => encOptPair (pyIntHex s) | none => "bad-arg"
+  | ["py", "nobody", m, code] =>
+    match decList? m, code.toNat? with
+    | some m, some c => encBool (isNoBody { method := m } { version := [], code := c, reason := [] })
+    | _, _ => "bad-arg"
+  | ["revisit", b] => match decList? b with | some b => encList (revisitBlock b) | none => "bad-arg"
   | ["py", "status", s] =>
     match decList? s with
     | some s => match parseStatusLine s with
